@@ -344,8 +344,13 @@ impl Scenario for C12 {
                 r.violate("C12|restart|tip-not-known-before-crash", format!("crash at journal op {} ({}): restarted tip id {} was never given to the node before the crash", k, tear, tip.0));
                 continue;
             }
-            let main_sibling_ts = c.recs[if plan.fork_at_tip { plan.n_blocks } else { plan.n_blocks - 1 }].ts;
-            if clean && tip.1 != final_tip.1 && !side.is_empty() && tip.1 == side[0].hash && side[0].ts < main_sibling_ts {
+            let main_sibling = if plan.fork_at_tip { plan.n_blocks } else { plan.n_blocks - 1 };
+            let main_sibling_ts = c.recs[main_sibling].ts;
+            // (the finding needs both: the sibling is read first, and it outweighs the main chain's blocks from its
+            // height to the tip; anything else that brings the node back on the sibling is not this finding)
+            let main_weight: u128 = c.recs[main_sibling..=plan.n_blocks].iter().map(|b| b.burnfee as u128).sum();
+            let sibling_outweighs = !side.is_empty() && (side[0].burnfee as u128) > main_weight;
+            if clean && tip.1 != final_tip.1 && sibling_outweighs && tip.1 == side[0].hash && side[0].ts < main_sibling_ts {
                 // recorded finding: start-up re-runs the fork choice in file-name (timestamp) order. A stored
                 // sibling that carries an earlier timestamp than the main chain's block of its height is then seen
                 // first, and if its burn fee outweighs the main chain's blocks above the fork point (steeply
